@@ -9,5 +9,14 @@ let handle = function
   | ["fp3"; n; e] ->
     let fp = Prims.hash (n_of_int 1) (Fingerprint.fp_preimage_v3 (bytes_of_hex n) (bytes_of_hex e)) in
     hex_of_bytes fp ^ " " ^ hex_of_bytes (Fingerprint.keyid_v3 (bytes_of_hex n))
+  | ["sigmatch"; kids; fps; kid; fp] ->
+    str_of_bool (Identity.sig_match (chunks_of kids) (chunks_of fps) (bytes_of_hex kid) (bytes_of_hex fp))
+  | ["eskmatch"; target; kid; fp] ->
+    let t = match Stdlib.String.split_on_char ':' target with
+      | ["k"; id] -> Identity.TKeyId (bytes_of_hex id)
+      | ["f"; "_"] -> Identity.TFp None
+      | ["f"; f] -> Identity.TFp (Some (bytes_of_hex f))
+      | _ -> Identity.TOther in
+    str_of_bool (Identity.esk_match t (bytes_of_hex kid) (bytes_of_hex fp))
   | _ -> "MODEL-ERROR unknown op"
 let () = run handle
